@@ -923,11 +923,30 @@ class _CVal:
         self.value = v
 
 
-def m_sorted(interp, it, **k):
+def sym_sort(interp, seq, key=None, reverse=False):
+    """stable insertion sort deciding every comparison through the path (forks on symbolic keys)"""
+    keys = [interp.call_value(key, [x], {}) if key is not None else x for x in seq]
+    if not has_sym(keys, 2):
+        order = sorted(range(len(seq)), key=lambda i: keys[i], reverse=reverse)
+        return [seq[i] for i in order]
+    out = []      # list of (key, item)
+    for kx, x in zip(keys, seq):
+        pos = len(out)
+        # insert after the last element that is not greater (stability)
+        for j in range(len(out) - 1, -1, -1):
+            kj = out[j][0]
+            gt = interp.compare(ast.Gt() if not reverse else ast.Lt(), kj, kx)
+            if interp.truth(gt):
+                pos = j
+            else:
+                break
+        out.insert(pos, (kx, x))
+    return [x for _k, x in out]
+
+
+def m_sorted(interp, it, key=None, reverse=False):
     seq = m_list(interp, it)
-    if has_sym(seq, 1) and 'key' not in k:
-        raise Unsupported('sorted of symbolic values')
-    return sorted(seq, **k)
+    return sym_sort(interp, seq, key, reverse)
 
 
 def m_zip(interp, *its):
@@ -986,6 +1005,10 @@ def lookup_bound(f):
             return lambda interp, self_, v: self_.append(v)
         if name == 'extend':
             return lambda interp, self_, v: self_.extend(m_list(interp, v))
+        if name == 'sort':
+            def sort(interp, self_, key=None, reverse=False):
+                self_[:] = sym_sort(interp, list(self_), key, reverse)
+            return sort
         if name == 'index':
             def idx(interp, self_, v, *a):
                 for j, y in enumerate(self_):
